@@ -24,6 +24,9 @@ P(e, k) == e.post[k]
 \* scalar argument k as a value
 SC(e, k) == LET x == e.sc[k] IN [s |-> IF x.m = <<>> THEN 0 ELSE IF x.neg THEN -1 ELSE 1, d |-> x.m]
 IsUTy(e) == e.ty = "U"
+\* operand k of a binary operation: a source register or a scalar, as selected by e.args
+A(e, k) == IF ~Has(e, "args") THEN S(e, k)
+           ELSE LET c == e.args[k] IN IF "r" \in DOMAIN c THEN S(e, c.r) ELSE SC(e, c.c)
 
 Adopt(v) == LET d == Norm(v.d) IN [s |-> IF d = <<>> THEN 0 ELSE IF v.s = 0 THEN 1 ELSE v.s, d |-> d]
 AllPostCanon(e) == \A k \in 1..Len(e.post) : ZCanon(e.post[k]) /\ IsDigits(e.post[k].d)
@@ -33,14 +36,24 @@ PostIs1(e, v) == ZEq(Adopt(P(e, 1)), v)
 ----------------------------------------------------------------------------
 (* Fails(e): the call is in a documented failure case (must panic, or be   *)
 (* None for checked variants).                                             *)
+DivOps == {"div", "rem", "div_rem", "checked_div", "div_floor", "mod_floor", "div_mod_floor", "div_ceil",
+           "div_euclid", "rem_euclid", "div_rem_euclid", "checked_div_euclid", "checked_rem_euclid",
+           "checked_div_rem_euclid"}
 Fails(e) ==
-    CASE e.op \in {"sub", "checked_sub"} /\ IsUTy(e) -> FailsSubU(S(e, 1), S(e, 2))
-      [] e.op = "sub_sc" /\ IsUTy(e)  -> FailsSubU(S(e, 1), SC(e, 1))
-      [] e.op = "rsub_sc" /\ IsUTy(e) -> FailsSubU(SC(e, 1), S(e, 1))
+    CASE e.op \in {"sub", "checked_sub"} /\ IsUTy(e) -> FailsSubU(A(e, 1), A(e, 2))
+      [] e.op \in DivOps -> FailsDiv(A(e, 2))
       [] OTHER -> FALSE
 
 \* checked_* operations report failure as None and never panic
-IsChecked(e) == e.op \in {"checked_add", "checked_sub", "checked_mul", "checked_div"}
+IsChecked(e) == e.op \in {"checked_add", "checked_sub", "checked_mul", "checked_div", "checked_div_euclid",
+                          "checked_rem_euclid", "checked_div_rem_euclid"}
+
+PA(e, k) == Adopt(P(e, k))
+DivRule(e) ==
+    LET a == A(e, 1)  b == A(e, 2)  conv == DivConv(e.op) IN
+    CASE e.part = "qr" -> IsDivPair(conv, a, b, PA(e, 1), PA(e, 2))
+      [] e.part = "q"  -> LET q == PA(e, 1) IN IsDivPair(conv, a, b, q, ZSub(a, ZMul(q, b)))
+      [] e.part = "r"  -> IsDivPair(conv, a, b, Adopt(e.hint[1]), PA(e, 1))
 
 (* Rule(e): the call returned normally and is not in a failure case.       *)
 Rule(e) ==
@@ -48,12 +61,14 @@ Rule(e) ==
       [] e.op = "new_u32"       -> PostIs1(e, OfBytesLE(1, e.words))
       [] e.op = "from_biguint"  -> PostIs1(e, OfSignMag(e.sgn, S(e, 1)))
       [] e.op = "clone"         -> PostIs1(e, S(e, 1))
-      [] e.op \in {"add", "checked_add"} -> PostIs1(e, AddR(S(e, 1), S(e, 2)))
-      [] e.op \in {"sub", "checked_sub"} -> PostIs1(e, SubR(S(e, 1), S(e, 2)))
-      [] e.op = "add_sc"        -> PostIs1(e, AddR(S(e, 1), SC(e, 1)))
-      [] e.op = "sub_sc"        -> PostIs1(e, SubR(S(e, 1), SC(e, 1)))
-      [] e.op = "rsub_sc"       -> PostIs1(e, SubR(SC(e, 1), S(e, 1)))
-      [] e.op \in {"mul", "checked_mul"} -> PostIs1(e, MulR(S(e, 1), S(e, 2)))
+      [] e.op \in {"add", "checked_add"} -> PostIs1(e, AddR(A(e, 1), A(e, 2)))
+      [] e.op \in {"sub", "checked_sub"} -> PostIs1(e, SubR(A(e, 1), A(e, 2)))
+      [] e.op \in {"mul", "checked_mul"} -> PostIs1(e, MulR(A(e, 1), A(e, 2)))
+      [] e.op \in DivOps -> DivRule(e)
+      [] e.op = "is_multiple_of" ->
+            LET a == A(e, 1)  b == A(e, 2)  q == Adopt(e.hint[1])  r == ZSub(a, ZMul(q, b)) IN
+            IF b.s = 0 THEN e.ret.b = (a.s = 0)
+            ELSE IsTruncDivRem(a, b, q, r) /\ e.ret.b = (r.s = 0)
       [] OTHER -> FALSE     \* an event the specification does not know is never accepted
 
 \* "ok", or why the event is rejected
